@@ -192,7 +192,10 @@ def plan(tier):
                     cfg['prior_fixed'] = {'b': -30, 'c': 40}
                 tasks.append(dict(harness='rebal', cfg=cfg, opts=opts))
                 if not quick:
-                    tasks.append(dict(harness='rebal', cfg=dict(targets=tg, cash=cash, fee=['pershare', 0.0625], spread=0, int=integer), opts=opts))
+                    c2 = dict(targets=tg, cash=cash, fee=['pershare', 0.0625], spread=0, int=integer)
+                    if integer:
+                        c2['prior_fixed'] = {'b': -30, 'c': 40}
+                    tasks.append(dict(harness='rebal', cfg=c2, opts=opts))
     for tg in ([['sub', 0.5], ['c', 0.25]], [['sub', 0.75]], [['c', 0.5]], [['sub', -0.25], ['c', 0.5]]):
         tasks.append(dict(harness='subtarget', cfg=dict(targets=tg), opts=opts))
     A = [['a', 0.5], ['b', 0.25]]
